@@ -33,6 +33,8 @@ def make_ranks(rng, kinds, maxr):
     N = len(kinds)
     r = [1] + [rng.randint(1, maxr) for _ in range(N - 1)] + [1]
     if kinds[0][0] == "cp":
+        if N == 1:
+            r[1] = rng.randint(1, maxr)
         r[0] = r[1]
     for n in range(1, N):
         if kinds[n][0] == "cp":
